@@ -28,7 +28,8 @@ TIMEOUT = {'quick': 1500, 'thorough': 10800}
 WORKERS = 10
 ARRANGEMENTS = ('same-dir', 'subdirs-I', 'other-cwd-relative', 'absolute', 'include-twice', 'dotdot-include',
                 'dot-slash-include', 'absolute-include', 'I-subpath-nested', 'files-named-like-types',
-                'declaration-less-file', 'two-dirs-mixed', 'I-order', 'abs-I-rel-inputs')
+                'declaration-less-file', 'two-dirs-mixed', 'I-order', 'abs-I-rel-inputs', 'blank-in-include-path',
+                'dotted-stems')
 
 
 def shards(ctx):
@@ -79,7 +80,7 @@ def add_sizer_chain(sch):
                                 S.Member('e', 'u16', S.EXT, sizer='k')]))
 
 
-def make_split(sch, rng, twice=False, like_types=False, stub=False):
+def make_split(sch, rng, twice=False, like_types=False, stub=False, dotted=False):
     """-> list of (filename, [def names], [included filenames])
     like_types: a file is called after the first definition it holds (N3.prophy defines N3 ...);
     stub: a file without any declaration (a comment only) is included by every other file, first."""
@@ -98,7 +99,8 @@ def make_split(sch, rng, twice=False, like_types=False, stub=False):
             for dep in true_deps(sch, sch.by_name[n]):
                 if where[dep] != i:
                     need.add(where[dep])
-        fname = (lambda j: '%s.prophy' % parts[j][0]) if like_types else (lambda j: 'f%d.prophy' % j)
+        fname = ((lambda j: '%s.prophy' % parts[j][0]) if like_types else
+                 (lambda j: 'f%d.v2.x.prophy' % j) if dotted else (lambda j: 'f%d.prophy' % j))
         inc = [fname(j) for j in sorted(need)]
         if twice and inc:
             inc = inc + [inc[0]]
@@ -143,7 +145,10 @@ def model_layouts(nodes):
 def run_case(acc, audit, wd, idx, sch, rng, arrangement, want_cpp, seed):
     w = W.Wire(sch)
     files = make_split(sch, rng, twice=(arrangement == 'include-twice'),
-                       like_types=(arrangement == 'files-named-like-types'), stub=(arrangement == 'declaration-less-file'))
+                       like_types=(arrangement == 'files-named-like-types'), stub=(arrangement == 'declaration-less-file'),
+                       dotted=(arrangement == 'dotted-stems'))
+    if arrangement == 'dotted-stems':
+        want_cpp = True
     root = os.path.join(wd, 'c%d' % idx)
     os.makedirs(root)
     # --- single-file build
@@ -179,7 +184,9 @@ def run_case(acc, audit, wd, idx, sch, rng, arrangement, want_cpp, seed):
                       ('app' if i == len(files) - 1 else 'zz_inc') if arrangement == 'I-order' else
                       # the last file lives in app/ and names its includes "proto/<file>", found through -I inc; the
                       # other files are siblings in inc/proto/ and include each other by bare name; app/ goes first
-                      ('app' if i == len(files) - 1 else 'inc/proto') if arrangement == 'I-subpath-nested' else '')
+                      ('app' if i == len(files) - 1 else 'inc/proto') if arrangement == 'I-subpath-nested' else
+                      # the includer names its includes through a directory whose name holds a blank
+                      ('app' if i == len(files) - 1 else 'app/shared defs') if arrangement == 'blank-in-include-path' else '')
     for i, (fn, part, incs) in enumerate(files):
         sub = subdir[fn]
         dd = os.path.join(split_dir, 'src', sub)
@@ -194,6 +201,8 @@ def run_case(acc, audit, wd, idx, sch, rng, arrangement, want_cpp, seed):
                 pre = lambda f: 'proto/' + f                                   # noqa
             else:
                 pre = lambda f: f                                              # noqa
+        elif arrangement == 'blank-in-include-path':
+            pre = (lambda f: 'shared defs/' + f) if dd.endswith('app') else (lambda f: f)     # noqa
         elif arrangement == 'two-dirs-mixed':
             pre = lambda f, sub=sub: f if subdir[f] == sub else '../%s/%s' % (subdir[f], f)   # noqa
             incs = sorted(incs, key=lambda f, sub=sub: subdir[f] == sub)
@@ -275,7 +284,7 @@ def run_case(acc, audit, wd, idx, sch, rng, arrangement, want_cpp, seed):
         acc.violation(PROP, 'schema-file-not-processed-exactly-once', witness(open_counts=counts))
         return
     # outputs per file
-    missing = [fn for fn in paths if not os.path.exists(os.path.join(out2, fn.replace('.prophy', '.py')))]
+    missing = [fn for fn in paths if not os.path.exists(os.path.join(out2, fn[:-len('.prophy')] + '.py'))]
     if missing:
         acc.violation(PROP, 'per-file-output-missing', witness(missing=missing))
         return
@@ -286,55 +295,61 @@ def run_case(acc, audit, wd, idx, sch, rng, arrangement, want_cpp, seed):
                                                                        single={k: lay1[k] for k in bad}))
         return
     acc.count('layouts_compared', len(lay1))
-    mods = {}
-    try:
-        for fn in paths:
-            mods[fn] = import_pkg(split_dir, pkg2, fn.replace('.prophy', ''))
-    except BaseException as e:  # noqa
-        acc.violation(PROP, 'split-module-does-not-import:%s' % type(e).__name__,
-                      witness(error='%s: %s' % (type(e).__name__, str(e)[:400])))
-        return
-    where = {n: fn for fn, part, _ in files for n in part}
-    for d in sch.defs:
-        m2 = mods[where[d.name]]
-        if d.kind == 'const':
-            if getattr(m2, d.name) != getattr(mod1, d.name) or getattr(m2, d.name) != d.value:
-                acc.violation(PROP, 'constant-differs', witness(name=d.name, split=getattr(m2, d.name), single=getattr(mod1, d.name)))
-                return
-            acc.count('constants_compared')
-        elif d.kind == 'enum':
-            for en, ev, _ in d.members:
-                if getattr(m2, en) != ev or getattr(mod1, en) != ev:
-                    acc.violation(PROP, 'enumerator-differs', witness(name=en, split=getattr(m2, en), single=getattr(mod1, en)))
-                    return
-            acc.count('constants_compared')
-        elif d.kind in ('struct', 'union'):
-            try:
-                da, db = getattr(m2, d.name)().encode('<'), getattr(mod1, d.name)().encode('<')
-            except Exception:  # noqa - never-assigned bytes field (recorded finding of C01)
-                da = db = None
-            if da != db:
-                acc.violation(PROP, 'default-constructed-message-differs', witness(type=d.name, split=C.hexs(da), single=C.hexs(db)))
-                return
-            for mode, v in V.value_set(sch, w, d.name, rng, nrand=1, aligned_greedy=False):
+    def python_part():
+        mods = {}
+        try:
+            for fn in paths:
+                mods[fn] = import_pkg(split_dir, pkg2, fn[:-len('.prophy')])
+        except BaseException as e:  # noqa
+            acc.violation(PROP, 'split-module-does-not-import:%s' % type(e).__name__,
+                          witness(error='%s: %s' % (type(e).__name__, str(e)[:400])))
+            return False
+        where = {n: fn for fn, part, _ in files for n in part}
+        for d in sch.defs:
+            m2 = mods[where[d.name]]
+            if d.kind == 'const':
+                if getattr(m2, d.name) != getattr(mod1, d.name) or getattr(m2, d.name) != d.value:
+                    acc.violation(PROP, 'constant-differs', witness(name=d.name, split=getattr(m2, d.name), single=getattr(mod1, d.name)))
+                    return False
+                acc.count('constants_compared')
+            elif d.kind == 'enum':
+                for en, ev, _ in d.members:
+                    if getattr(m2, en) != ev or getattr(mod1, en) != ev:
+                        acc.violation(PROP, 'enumerator-differs', witness(name=en, split=getattr(m2, en), single=getattr(mod1, en)))
+                        return False
+                acc.count('constants_compared')
+            elif d.kind in ('struct', 'union'):
                 try:
-                    a = getattr(m2, d.name)()
-                    b = getattr(mod1, d.name)()
-                    pyrt.build(a, sch, d.name, v)
-                    pyrt.build(b, sch, d.name, v)
-                    ea, eb = a.encode('<'), b.encode('<')
-                except Exception as e:  # noqa
-                    acc.violation(PROP, 'split-class-unusable:%s' % type(e).__name__,
-                                  witness(type=d.name, value=C.jsonable(v), error='%s: %s' % (type(e).__name__, e)))
-                    return
-                ref, _ = w.encode(d.name, v, '<')
-                if ea != eb or ea != ref:
-                    acc.violation(PROP, 'encodings-differ', witness(type=d.name, value=C.jsonable(v), split=C.hexs(ea),
-                                                                    single=C.hexs(eb), reference=C.hexs(ref)))
-                    return
-                acc.count('encodings_compared')
+                    da, db = getattr(m2, d.name)().encode('<'), getattr(mod1, d.name)().encode('<')
+                except Exception:  # noqa - never-assigned bytes field (recorded finding of C01)
+                    da = db = None
+                if da != db:
+                    acc.violation(PROP, 'default-constructed-message-differs', witness(type=d.name, split=C.hexs(da), single=C.hexs(db)))
+                    return False
+                for mode, v in V.value_set(sch, w, d.name, rng, nrand=1, aligned_greedy=False):
+                    try:
+                        a = getattr(m2, d.name)()
+                        b = getattr(mod1, d.name)()
+                        pyrt.build(a, sch, d.name, v)
+                        pyrt.build(b, sch, d.name, v)
+                        ea, eb = a.encode('<'), b.encode('<')
+                    except Exception as e:  # noqa
+                        acc.violation(PROP, 'split-class-unusable:%s' % type(e).__name__,
+                                      witness(type=d.name, value=C.jsonable(v), error='%s: %s' % (type(e).__name__, e)))
+                        return False
+                    ref, _ = w.encode(d.name, v, '<')
+                    if ea != eb or ea != ref:
+                        acc.violation(PROP, 'encodings-differ', witness(type=d.name, value=C.jsonable(v), split=C.hexs(ea),
+                                                                        single=C.hexs(eb), reference=C.hexs(ref)))
+                        return False
+                    acc.count('encodings_compared')
+        return True
+    # file stems with dots cannot be imported as Python modules (a.b is a package path): those runs are judged on
+    # the model, the files written and the generated C++ include chain
+    if arrangement != 'dotted-stems' and not python_part():
+        return
     if want_cpp:
-        last = files[-1][0].replace('.prophy', '')
+        last = files[-1][0][:-len('.prophy')]
         for ext in ('.ppf.cpp', '.pp.cpp'):
             try:
                 cppdrv.compile_cpp([os.path.join(out2, last + ext)], os.path.join(out2, last + ext + '.o'), [out2],
